@@ -49,7 +49,10 @@ def _op(r, k, kind):
 def _state(r, n, kind):
     if kind == 0:
         return ref.rand_state(r, 2 ** n)
-    v = np.zeros(2 ** n, dtype=np.complex128)
+    if kind == 2:  # a real state written down with a real dtype
+        v = r.normal(size=2 ** n)
+        return v / np.linalg.norm(v)
+    v = np.zeros(2 ** n, dtype=[np.complex128, np.float64, np.int64][kind % 3] if kind >= 3 else np.complex128)
     v[int(r.integers(0, 2 ** n))] = 1
     return v
 
@@ -83,7 +86,8 @@ def run_index(ctx, case):
     reps = 3 if ctx.tier == 'quick' else 12
     for rep in range(reps):
         r = ref.rng(case['prng'] * 31 + rep)
-        okind, skind = rep % 4 if ctx.tier == 'quick' else int(r.integers(0, 4)), int(r.integers(0, 2))
+        okind, skind = rep % 4 if ctx.tier == 'quick' else int(r.integers(0, 4)), int(r.integers(0, 6))  # 0 Haar, 1 basis, 2 real float64, 3-5 basis state with complex/float/int dtype
+        ctx.label('state dtype=' + ['complex', 'complex', 'float', 'complex', 'float', 'int'][skind])
         if rep == 0:
             okind = case['prng'] % 4
         op = _op(r, len(targets), okind)
